@@ -65,12 +65,15 @@ class Unwind(BaseException):
 class Seam:
     def __init__(self, root, mode="record", fault_at=None, kill_at=None,
                  sched=None, detect_opaque=False, write_buffer=None,
-                 kill_at_mut=None, write_chunks=None):
+                 kill_at_mut=None, write_chunks=None, fault_kinds=None):
         self.root = os.path.abspath(root)
         self.mode = mode
         self.fault_at = fault_at
         self.kill_at = kill_at
         self.kill_at_mut = kill_at_mut
+        # with fault_kinds, fault_at counts only operations of those kinds
+        self.fault_kinds = fault_kinds
+        self.neligible = 0
         self.nmut = 0
         self.sched = sched
         self.detect_opaque = detect_opaque
@@ -99,7 +102,13 @@ class Seam:
             self.sched.point(kind, rel, mut, info)
         if self.detect_opaque and mut:
             self._scan_opaque()
-        if self.fault_at is not None and idx == self.fault_at:
+        if self.fault_kinds is not None:
+            fidx = self.neligible if kind in self.fault_kinds else None
+            if kind in self.fault_kinds:
+                self.neligible += 1
+        else:
+            fidx = idx
+        if self.fault_at is not None and fidx == self.fault_at:
             self.faulted = (kind, rel)
             self.trace.append((kind, rel, mut, "FAULT"))
             raise OSError(errno.EIO, "xv injected I/O error", path)
